@@ -126,4 +126,7 @@ pub struct HyraxProof<G: AffineRepr> {
     pub z_d: G::ScalarField,
     /// Auxiliary random scalar
     pub z_b: G::ScalarField,
+    /// The blinding factor of `com_eval`, revealed so that the verifier can
+    /// check `com_eval` against the claimed evaluation
+    pub r_eval: G::ScalarField,
 }
